@@ -13,7 +13,7 @@ from .reference import Reference, declared_edges, reachable
 from .sim import BarrierScheduler, FifoScheduler, ScriptedScheduler, make_scheduler
 
 # construct classes currently claimed (extended as defects are repaired); see DESIGN 4.2 / 7
-CLASSES_ALL = ['plain', 'rec', 'rec_nested', 'switch', 'switch_unk', 'switch_shared', 'oneof', 'oneof_nested', 'mix_main']
+CLASSES_ALL = ['plain', 'rec', 'rec_nested', 'switch', 'switch_unk', 'switch_shared', 'oneof', 'oneof_nested', 'mix_main', 'switch_oneof']
 
 
 def h64(*parts) -> int:
@@ -415,7 +415,7 @@ class C06(Prop):
 
 class C09(Prop):
     id = 'C09'
-    classes = ['switch', 'switch_unk', 'switch_shared', 'mix_main']
+    classes = ['switch', 'switch_unk', 'switch_shared', 'mix_main', 'switch_oneof']
     rule = ('programs with named/unnamed, nested, shared switches; labels derived from the input incl. labels '
             'without a case; oracle: executed bodies subset of the reference demanded set, consumer kwargs = '
             'selected case value, unknown label => error result; non-trivial = program has a switch with >= 2 '
@@ -427,7 +427,7 @@ class C09(Prop):
 
 class C10(Prop):
     id = 'C10'
-    classes = ['oneof', 'oneof_nested', 'mix_main']
+    classes = ['oneof', 'oneof_nested', 'mix_main', 'switch_oneof']
     rule = ('programs with sibling / nested one-ofs, failures at any depth of candidate sub-pipelines, None/falsy '
             'candidates; oracle: invocation multiset vs reference (laziness, containment, winner value), candidate '
             'start order, OneOfDoesNotHaveResultError on exhaustion; non-trivial = some candidate failed before '
@@ -502,7 +502,7 @@ class C14(Prop):
 
 class C19(Prop):
     id = 'C19'
-    classes = [c for c in CLASSES_ALL if c != 'rec']   # known finding K01
+    classes = [c for c in CLASSES_ALL if not c.startswith('rec')]   # known finding K01
     excluded_note = 'class rec (programs with a RecurrentSubGraph mark): known finding K01'
     rule = ('recording (and, in half of the cases, write-once enforcing) artifact store on programs with shared '
             'nodes; oracle: on successful reference outcomes each executed node is saved exactly once with its final '
